@@ -32,6 +32,7 @@ def verify_function(prog, spec, con, mode='seq', options=None):
     ex.cur_env = env
     spec.begin(ex, st, con, env)
     nreq = 0
+    ex.mode = mode
     for c in con.of('requires'):
         g = spec.eval_bool(ex, c.expr, env, st, st)
         st.pc.append(g)
@@ -56,16 +57,43 @@ def verify_function(prog, spec, con, mode='seq', options=None):
             for n in names:
                 env2[n] = ('val', r)
         ex.covers.append(('cover/%s/return#%s' % (short, '.'.join(stf.pathid)), list(stf.pc)))
+        pid = '.'.join(stf.pathid)
+        old_s, post_s = old, stf
+        extra_tags = []
+        lp_none = any(c.extra.get('arg', '').strip() == 'none' for c in con.of('lp'))
+        if mode == 'intf':
+            extra_tags = ['C02']
+            acts = getattr(stf, 'actions', [])
+            if acts and not lp_none:
+                # linearization point = the last atomic action on the shared container; every earlier action must leave
+                # the contents unchanged; the contract is evaluated between the state right before the LP (after the
+                # environment's interference) and the contents right after it.
+                for (nm, before, after_g, line) in acts[:-1]:
+                    goals = []
+                    for g, bt in before.ghost.items():
+                        if g.startswith('view$') and g in after_g:
+                            goals.append(bt == after_g[g])
+                    ex.oblige(stf, 'C02/%s/step.%s.nonmodifying@L%s#%s' % (short, prog.short(nm), line, pid),
+                              z3.And(*goals) if goals else z3.BoolVal(True), tags=['C02'], kind='step')
+                nm, before, after_g, line = acts[-1]
+                old_s = before
+                post_s = stf.copy()
+                for g, t in after_g.items():
+                    if g.startswith('view$'):
+                        post_s.ghost[g] = t
         for c in con.clauses:
             if c.kind == 'let':
-                env2[c.extra['var']] = ('val', spec.eval(ex, c.expr, env2, stf, old))
+                env2[c.extra['var']] = ('val', spec.eval(ex, c.expr, env2, post_s, old_s))
             elif c.kind == 'calls':
-                spec.calls_callee(ex, c, env2, stf, old, short)
+                spec.calls_callee(ex, c, env2, stf, old_s, short)
             elif c.kind == 'ensures':
-                g = spec.eval_bool(ex, c.expr, env2, stf, old)
-                ex.oblige(stf, '%s/%s/%s#%s' % (ex.tagstr(c), short, c.label or 'post%d' % c.ordinal, '.'.join(stf.pathid)), g,
-                          tags=c.tags, where='%s:%d' % (c.file, c.line), kind='post')
-        spec.frame_check(ex, con, env2, stf, old, short)
+                if not ex.active(c):
+                    continue
+                g = spec.eval_bool(ex, c.expr, env2, post_s, old_s)
+                ex.oblige(stf, '%s/%s/%s%s#%s' % (ex.tagstr(c), short, 'intf.' if mode == 'intf' else '', c.label or 'post%d' % c.ordinal, pid), g,
+                          tags=list(c.tags) + extra_tags, where='%s:%d' % (c.file, c.line), kind='post')
+        if mode != 'intf':
+            spec.frame_check(ex, con, env2, stf, old, short)
 
     ex.run_fn(con.fn, args, st, at_return, bindings=bindings)
     return ex
